@@ -54,7 +54,7 @@ func NewWriteMultipleRegistersRequestTCP(unitID uint8, startAddress uint16, data
 	if registerByteCount%2 != 0 {
 		return nil, errors.New("data length must be even number of bytes")
 	}
-	registerCount := uint16(registerByteCount / 2)
+	registerCount := registerByteCount / 2 // int: converting before range check would accept oversized data
 	if registerCount == 0 || registerCount > 124 {
 		return nil, fmt.Errorf("registers count out of range (1-124): %v", registerCount)
 	}
@@ -68,7 +68,7 @@ func NewWriteMultipleRegistersRequestTCP(unitID uint8, startAddress uint16, data
 			UnitID: unitID,
 			// function code is added by Bytes()
 			StartAddress:  startAddress,
-			RegisterCount: registerCount,
+			RegisterCount: uint16(registerCount),
 			Data:          data,
 		},
 	}, nil
@@ -150,7 +150,7 @@ func NewWriteMultipleRegistersRequestRTU(unitID uint8, startAddress uint16, data
 	if registerByteCount%2 != 0 {
 		return nil, errors.New("data length must be even number of bytes")
 	}
-	registerCount := uint16(registerByteCount / 2)
+	registerCount := registerByteCount / 2 // int: converting before range check would accept oversized data
 	if registerCount == 0 || registerCount > 124 {
 		return nil, fmt.Errorf("registers count out of range (1-124): %v", registerCount)
 	}
@@ -160,7 +160,7 @@ func NewWriteMultipleRegistersRequestRTU(unitID uint8, startAddress uint16, data
 			UnitID: unitID,
 			// function code is added by Bytes()
 			StartAddress:  startAddress,
-			RegisterCount: registerCount,
+			RegisterCount: uint16(registerCount),
 			Data:          data,
 		},
 	}, nil
